@@ -618,6 +618,7 @@ func Spec() *explore.Spec {
 			{Name: "append-flags", ShardDepth: 1, Body: appendFlags, Doc: "~500 (thorough: ~3500, all of C01's depth-2 universe) type shapes (all specialised and generic maps with 0/1/2/many entries, RawMessage valid/compact/whitespace/invalid, Number, any, marshalers that fail, HTML-sensitive keys) x boundary values x all 8 AppendFlags subsets (TrustRawMessage only for valid raws): error iff default flags error, valid JSON, same generic value as the default output, bytes equal to the standard Encoder with SetEscapeHTML(false), unsorted output of the same length, Encoder setters equivalent; every output parsed back with all 16 subsets of the non-semantic ParseFlags and compared with the original (for values encoding/json round-trips)"},
 			{Name: "failing-values", ShardDepth: 2, Body: failingValues, Doc: "values one of whose members cannot be encoded (NaN, channel, failing Marshaler, invalid RawMessage / Number) inside maps of 2-5 entries, nested maps, slices and structs x all 8 AppendFlags subsets, each encoded 12 times (map iteration order is the runtime's): an error for every flag subset, and the destination prefix is kept"},
 			{Name: "number-kinds", ShardDepth: 2, Body: numberKinds, Doc: "23 number literals at every int64/uint64 boundary and beyond x {bare, in array, in object} x all 512 ParseFlags subsets: dynamic type per the documented precedence, numeric value preserved exactly (big.Float)"},
+			{Name: "decoder-setters", ShardDepth: 2, Body: decoderSetters, Doc: "every history of 0-3 calls of the 7 Decoder setters followed by 4 documents (unknown member, lower-case keys, numbers, raw message, strings) decoded into a struct with Number / RawMessage / any fields: error presence and value equal Parse with the union of the selected flags"},
 			{Name: "parse-flags", ShardDepth: 1, Body: parseFlags, Doc: "typed targets x valid documents x all 512 ParseFlags subsets (minus DisallowUnknownFields): same decoded value as with no flags"},
 		},
 		Rule: "every (value, AppendFlags subset) and every (document, ParseFlags subset); distinct non-trivial = distinct (type, value) and documents",
